@@ -300,7 +300,12 @@ class Runner:
                         # all_of([a, b]), `a | b` is any_of([a, b])); chains like `(a & b) & c` arise when a slot holds a condition
                         cond = (evs[0] & evs[1]) if op == 'allof' else (evs[0] | evs[1])
                     else:
-                        cond = (AllOf if op == 'allof' else AnyOf)(env, evs)
+                        # the operands may be handed over as any iterable (Condition takes an Iterable): which spelling is used
+                        # is fixed by the instruction (target slot and arity), the meaning is the same - also for NO operands
+                        form = (ins[1] + 2 * len(evs)) % 5
+                        opnds = [evs, (e for e in evs), iter(evs), tuple(evs), filter(lambda e: True, evs)][form]
+                        self.hook('cond-form', ('list', 'generator', 'iterator', 'tuple', 'filter')[form], len(evs))
+                        cond = (AllOf if op == 'allof' else AnyOf)(env, opnds)
                     slots[ins[1]] = self.new(cond)
                     evs.clear()          # the caller's list is the caller's: a condition must not alias it
                     self.hook('cond', slots[ins[1]], op, mine)
